@@ -378,7 +378,7 @@ func c20Scenarios(thorough bool) []KdcScenario {
 func c20(env *Env, rep *Report) {
 	scs := c20Scenarios(env.thorough())
 	rep.Rule = fmt.Sprintf("%d request scenarios against the real kdcproxy handler with scripted KDC connections: 1 KDC: realms {default, absent, second, unknown} x Kerberos payload sizes {0,1,3,4,5,100,1500,65535,128KiB-32} x UDP behaviour {reply, silent, refuse} x TCP behaviour {reply then close, reply and keep open, reply in two writes, half a reply then close, close at once, silent, refuse}; 2 and 3 KDCs: every combination of those behaviours (quick: 3 KDCs without two-writes/close-at-once). "+
-		"Each runs under the default schedule with deadlines firing at quiescence; selected scenarios additionally under every schedule of handler, reply readers and KDC threads up to the preemption bound. Oracle: KDCs of the right realm receive exactly the embedded message (TCP with, UDP without the 4-byte prefix); if any connection delivers a complete reply the response is 200 and its kerb-message is exactly one KDC's reply (length-prefixed); otherwise an error status; always an HTTP response and no goroutine left. Malformed requests are part of C10(d). distinct_nontrivial = distinct scenarios.", len(scs))
+		"Each runs under the default schedule with deadlines firing at quiescence; selected scenarios additionally under every schedule of handler, reply readers and KDC threads up to the preemption bound. Oracle: KDCs of the right realm receive exactly the embedded message (TCP with, UDP without the 4-byte prefix); if any connection delivers a complete reply the response is 200 and its kerb-message is exactly one KDC's reply (length-prefixed); otherwise an error status; always an HTTP response and no goroutine left. Malformed requests are part of C10(d). Binding: the real rdpgw binary with a kerberos configuration and scripted KDCs on loopback TCP/UDP sockets (realms whose KDC replies over TCP, over UDP, stays silent, refuses TCP, truncates its reply; unknown realm; other methods; malformed bodies): every request gets an HTTP response with the status and bytes above. distinct_nontrivial = distinct scenarios.", len(scs))
 	rep.Assumptions = append(rep.Assumptions,
 		"KDC order is randomised by gokrb5 (math/rand) and by map iteration: behaviours are assigned to connections in dial order, so the execution structure does not depend on it",
 		"a deadline fires only at quiescence, earliest first", "UDP peers going away are not observable (no EOF on datagram sockets)",
@@ -415,7 +415,7 @@ func c20(env *Env, rep *Report) {
 		}
 		return
 	}
-	distinct := 0
+	distinct := bindKdc(rep, env)
 	maxEx := 40000
 	if env.thorough() {
 		maxEx = 400000
